@@ -409,8 +409,21 @@ class AnsiString:
                         del settings_point.rem[i]
 
                 if idx == end:
-                    if end != len(self._s):
-                        settings_point.add += removed_settings
+                    if end != len(self._s) and removed_settings:
+                        # The removed settings which continue past the range are restarted here. They must stay
+                        # below everything that was above them, so all settings carried over this index from the
+                        # lowest restarted one upwards are restarted with them, in their original order, beneath
+                        # the settings which begin at this index.
+                        carried = [
+                            s for s in current_settings
+                            if __class__._find_setting_reference(s, settings_point.add) < 0
+                        ]
+                        lowest = min(__class__._find_setting_reference(s, carried) for s in removed_settings)
+                        restart = carried[lowest:]
+                        settings_point.rem.extend(
+                            s for s in restart if __class__._find_setting_reference(s, removed_settings) < 0
+                        )
+                        settings_point.add[:0] = restart
                 else:
                     for i in reversed(range(len(settings_point.add))):
                         if ansi_settings is None or settings_point.add[i] in ansi_settings:
